@@ -270,6 +270,9 @@ pub struct Script {
     /// response headers and data emitted by the query form
     pub headers: Vec<&'static [u8]>,
     pub emit: Vec<Val>,
+    /// return `fail` before looking at any parameter (a handler refusing up front, e.g. wrong instrument state),
+    /// leaving the unit's data unread
+    pub fail_before_pulls: bool,
     /// a handler that does not propagate a failed parameter request other than -109 (`if let Ok(..)`, defaulting):
     /// it stops asking and completes normally; a lexical error in its unit must still fail the message
     pub tolerant: bool,
@@ -280,6 +283,9 @@ pub struct Script {
 
 impl Script {
     fn pulls(&self, dev: &mut Dev, params: &mut Parameters) -> Result<()> {
+        if let (Some(e), true) = (self.fail, self.fail_before_pulls) {
+            return Err(e);
+        }
         for p in &self.pulls {
             let tok = if p.optional {
                 match params.next_optional_token() {
